@@ -53,7 +53,9 @@ class Cfg:
     """One constructor configuration.  ``L`` is THE latency knob (service time, link latency,
     disk latency, set-up latency ...); ``hold`` is how long a harness worker keeps a capacity."""
 
-    def __init__(self, name, L, t0_ns=int(T0_S * NS), d_ns=int(D_S * NS)):
+    def __init__(self, name, L, t0_ns=int(T0_S * NS), d_ns=int(D_S * NS), per_table=None, reduced=False):
+        self.per_table = per_table      # None: timer periods as written (dyadic); else nominal -> decimal value
+        self.reduced = reduced          # timer-centric configuration: only a few arrival patterns
         self.name = name
         self.L = float(L)
         self.t0_ns = t0_ns
@@ -61,6 +63,17 @@ class Cfg:
         self.d = d_ns / NS
         self.hold = float(L)
         self.zero = (L == 0)
+
+    def per(self, x):
+        """Timer period / timeout / TTL used by a driver for the nominal (dyadic) value ``x``."""
+        if self.per_table is None or x <= 0:
+            return x
+        if x in self.per_table:
+            return self.per_table[x]
+        v = round(x * 0.9, 1)
+        if (v * 4) == int(v * 4):       # keep it non-dyadic
+            v = round(v + 0.1, 1)
+        return v
 
     def arrival_ns(self, off):
         return self.t0_ns + off * self.d_ns
@@ -82,12 +95,51 @@ CFGS = {
     # float seconds emits into the past exactly there)
     "odd_zero": Cfg("odd_zero", 0.0, 1_001_000_000, 2_000_000),
     "odd_eq": Cfg("odd_eq", 0.002, 1_001_000_000, 2_000_000),
+    # timer-centric configurations: every period / interval / timeout / TTL of the drivers (wrapped in P()/R()) takes a
+    # NON-DYADIC decimal value (0.1, 0.3, 0.7 ... resp. 0.3, 0.6, 0.7 ...), i.e. one that is not exact in binary
+    # floating point, latencies and the arrival grid are decimal too, and the 12 s horizon spans >= 10 periods of every
+    # periodic timer.  Only a few arrival patterns are run (the subject here is the timers, not the contention).
+    "dec_a": Cfg("dec_a", 0.1, 1_000_000_000, 100_000_000, reduced=True,
+                 per_table={0.25: 0.1, 0.5: 0.3, 0.75: 0.7, 1.0: 0.9, 1.25: 1.1, 1.5: 1.3, 2.0: 1.7, 2.5: 2.1,
+                            3.0: 2.3, 6.0: 5.3}),
+    "dec_b": Cfg("dec_b", 0.3, 700_000_000, 300_000_000, reduced=True,
+                 per_table={0.25: 0.3, 0.5: 0.6, 0.75: 0.7, 1.0: 1.1, 1.25: 1.3, 1.5: 1.4, 2.0: 1.9, 2.5: 2.3,
+                            3.0: 2.9, 6.0: 5.9}),
 }
+_CUR = {"cfg": None}
+
+
+def P(x):
+    """Period knob: the value a driver uses for a nominal timer period / timeout / TTL ``x`` (seconds) in the
+    configuration of the scenario being built (identity except in the decimal-timer configurations)."""
+    c = _CUR["cfg"]
+    return c.per(x) if c is not None else x
+
+
+def R(x):
+    """Rate knob: rate whose period is P(1/x)."""
+    return 1.0 / P(1.0 / x)
+
+
 TIER = {
-    "quick": {"cfgs": ["zero", "eq", "long", "odd_zero", "odd_eq"], "max_req": 3, "offsets": [0, 1, 2]},
-    "thorough": {"cfgs": ["zero", "short", "eq", "long", "odd_zero", "odd_eq"], "max_req": 4,
+    "quick": {"cfgs": ["zero", "eq", "long", "odd_zero", "odd_eq", "dec_a", "dec_b"], "max_req": 3,
+              "offsets": [0, 1, 2]},
+    "thorough": {"cfgs": ["zero", "short", "eq", "long", "odd_zero", "odd_eq", "dec_a", "dec_b"], "max_req": 4,
                  "offsets": [0, 1, 2, 3]},
 }
+
+
+def reduced_patterns(ops, max_req, offsets):
+    """The few patterns of a timer-centric configuration: staggered and simultaneous arrivals, every op used."""
+    n = max(min(max_req, 3), min(len(ops), max_req))
+    stag = tuple((offsets[min(i, len(offsets) - 1)], ops[i % len(ops)]) for i in range(n))
+    simul = tuple((offsets[0], ops[(i + 1) % len(ops)]) for i in range(n))
+    late = ((offsets[-1], ops[0]),)
+    out = []
+    for p in (stag, simul, late):
+        if p not in out:
+            out.append(p)
+    return out
 
 
 def patterns(ops, max_req, offsets, cap_ops=None):
@@ -318,6 +370,7 @@ def run_scenario(drv_cls, cfg, pattern, *, keep_trace=False, check_instances=Fal
     res.error = None
     res.instances = None
     res.past_pushes = []
+    _CUR["cfg"] = cfg
     drv = drv_cls()
     h = H(drv)
     drv.cfg, drv.h = cfg, h
@@ -466,7 +519,8 @@ def run_job(job):
     (drv_cls, cfg_name, tier) = job
     tp = TIER[tier]
     cfg = CFGS[cfg_name]
-    pats = patterns(drv_cls.ops, tp["max_req"], tp["offsets"])
+    pats = (reduced_patterns(drv_cls.ops, tp["max_req"], tp["offsets"]) if cfg.reduced
+            else patterns(drv_cls.ops, tp["max_req"], tp["offsets"]))
     st = {"driver": drv_cls.drv_name(), "family": drv_cls.family, "cfg": cfg_name, "exec": 0, "events": 0,
           "nontriv": 0, "outcomes": set(), "viol": {}, "errors": 0, "error_sample": None, "horizon": 0,
           "pushes": 0, "lib_deliveries": 0, "completed": 0, "requests": 0, "out": 0, "max_same": 0,
